@@ -85,9 +85,35 @@ class Check:
                 return "translator %s failed: %s" % (extra[0], out[-2000:])
         return None
 
+    def closure(self):
+        """.v files the property theorems and the tie depend on (transitively), from coqdep"""
+        write_coqproject()
+        rc, out = sh("coqdep -f _CoqProject 2>/dev/null", cwd=COQ)
+        deps = {}
+        for line in out.splitlines():
+            if ":" not in line:
+                continue
+            lhs, rhs = line.split(":", 1)
+            tgt = [t for t in lhs.split() if t.endswith(".vo")]
+            if not tgt:
+                continue
+            deps[tgt[0][:-1]] = [d[:-1] for d in rhs.split() if d.endswith(".vo")]
+        todo = ["Properties/%s.v" % self.pid, "Tie/%s.v" % self.pid]
+        seen = set()
+        while todo:
+            f = todo.pop()
+            if f in seen:
+                continue
+            seen.add(f)
+            todo += deps.get(f, [])
+        return sorted(os.path.join(COQ, f) for f in seen if os.path.exists(os.path.join(COQ, f)))
+
     def gate(self):
         bad = []
-        for f in glob.glob(os.path.join(COQ, "**", "*.v"), recursive=True):
+        files = self.closure()
+        self.cov["coq_files"] = [os.path.relpath(f, COQ) for f in files]
+        self.cov["coq_lines"] = sum(len(open(f).read().splitlines()) for f in files)
+        for f in files:
             txt = open(f).read()
             txt = re.sub(r"\(\*.*?\*\)", "", txt, flags=re.S)
             for m in FORBIDDEN.finditer(txt):
@@ -110,7 +136,7 @@ class Check:
                 os.remove(prop_v[:-2] + ext)
             except FileNotFoundError:
                 pass
-        rc, out = sh("timeout 3000 make -j16 Properties/%s.vo" % self.pid, cwd=COQ, timeout=3100)
+        rc, out = sh("timeout 3000 make -j16 Properties/%s.vo Tie/%s.vo" % (self.pid, self.pid), cwd=COQ, timeout=3100)
         if rc != 0:
             # which theorems precede the failure?
             m = re.search(r'File "\./Properties/%s\.v", line (\d+)' % self.pid, out)
@@ -229,7 +255,7 @@ class Check:
 
 
 def known_findings(pid):
-    p = os.path.join(VERIF, "known_findings.json")
+    p = os.path.join(VERIF, "known_findings", pid + ".json")
     if not os.path.exists(p):
         return []
     return [f for f in json.load(open(p)).get("findings", []) if f["property"] == pid and f.get("status") == "known"]
